@@ -5,6 +5,11 @@ HERE = os.path.dirname(os.path.dirname(os.path.abspath(__file__)))
 ALL = ["C%02d" % i for i in range(1, 21)]
 # id -> (category, engine, technique, level text, level note, design ref)
 CHECKS = {
+ "C06": ("fault_enumeration", "E3-faults",
+   "exhaustive single-fault (thorough: + pair) enumeration over generated seed files, every entry point, in sandboxed worker processes with panic hook, limiting allocator and watchdog",
+   "Every byte offset of every part (inflated zip members re-zipped with valid CRCs, raw zip bytes, the BIFF8 Workbook stream re-wrapped in a valid compound file, raw compound-file bytes incl. header/FAT/directory, the decompressed VBA dir stream re-compressed, a compressed module stream) of 5 (thorough 10) seed workbooks x 14 byte/field operators (+ numeric and cell-reference replacement in XML, deletion of each member; thorough: all pairs of 5 field-sized overwrites in the first 160 bytes of binary parts) = 224 k (2.08 M) faulted files, each run through new(), ranges under two header options, formulas, worksheets(), metadata, VBA, merge cells / tables / range_ref and auto-detection. Panics (overflow checks on), single allocations above max(64 MiB, 4096 x input), 4 GiB live, and 10 s stalls are violations keyed by panic location / allocating source line; the sites reachable on the pinned tree are listed one by one in KNOWN_FINDINGS.txt, any other site fails the check.",
+   "Trusted: the fault operators and seeds; 'time proportional to input' is approximated by the stall watchdog, 'memory proportional' by the allocator thresholds; arbitrary multi-fault combinations are not covered.",
+   "DESIGN.md §2 C06"),
  "C07": ("model_checking", "E2-bfs",
    "exhaustive enumeration of all call sequences up to depth 3 (thorough 4) over the Reader/ReaderRef API on real readers, differential oracle against first-call results",
    "For one feature-rich workbook per format (3 sheets incl. chart/hidden sheet, shared strings, 1-D and 2-D shared formulas, dates, merged regions, a table, a VBA project, a defined name, a gap row) every sequence of <=3 (thorough 4) calls over 13 Reader calls, 3 header-row settings and the format's own calls (range_ref, merge cells, merged regions, tables) is replayed on a fresh reader (32 k / 665 k sequences): every result must equal the result of the same call made first on a fresh reader under the header-row option then in force. In addition range == range_ref == range_at(n) == worksheets()[name] for every sheet, unknown names are not-found errors, and the auto-detected Sheets reader returns the same results as the format's own reader for every common call under every option.",
@@ -116,7 +121,9 @@ def main():
       },
       "engines": [
         {"name":"E1-choice","path":"harness/src/engine/choice.rs","serves_properties":[],"kind_free_text":"stateless choice-tree explorer on the real code: full product or all vectors with <= d deviations from the default encoding"},
-        {"name":"E2-bfs","path":"harness/src/props/c05.rs","serves_properties":["C05"],"kind_free_text":"explicit-state BFS over real objects with a reference model, run to closure"},
+        {"name":"E2-bfs","path":"harness/src/props/c05.rs","serves_properties":["C05","C07","C08"],"kind_free_text":"explicit-state BFS / exhaustive call-sequence enumeration over real objects with a reference or differential model"},
+        {"name":"E3-faults","path":"harness/src/props/c06.rs","serves_properties":["C06"],"kind_free_text":"exhaustive fault enumerator over seed files with sandboxed worker processes (panic hook, limiting allocator, stall watchdog, symbolised failure sites)"},
+        {"name":"sweep","path":"harness/src/props/c11.rs","serves_properties":["C02","C10","C11","C14","C15","C18"],"kind_free_text":"complete enumeration of a finite input domain through a real function (hook or public API) against a reference"},
       ],
       "checks": [],
       "notes": "All checks: ./check.sh <ID> <quick|thorough>; exit 0 held / 1 VIOLATION / 2 machinery error. Known findings: KNOWN_FINDINGS.txt.",
